@@ -480,6 +480,8 @@ class Path:
             return self.fresh(alts[-1], name)
         if k == 'tuple':
             return tuple(self.fresh(t, f'{name}.{i}') for i, t in enumerate(typ[1]))
+        if k == 'fconst':
+            return float(typ[1])
         if k == 'float':
             b = z3.Int(name + '#bits')
             self.assume(z3.And(b >= 0, b < (1 << 64)), fact=True)
@@ -904,6 +906,10 @@ class Path:
         conc = not is_z3(a) and not is_z3(b)
         if conc and not isinstance(a, SymFloat) and not isinstance(b, SymFloat):
             return self.binop_concrete(op, a, b)
+        if (isinstance(a, float) and is_sym_int(b)) or (isinstance(b, float) and is_sym_int(a)):
+            r = self._binop_int_nonfinite_float(op, a, b)
+            if r is not MISSING:
+                return r
         if isinstance(a, SymFloat) or isinstance(b, SymFloat) or isinstance(a, float) or isinstance(b, float):
             if op is ast.Mult and isinstance(a, SymFloat) and isinstance(b, float):
                 return self.ex.intrinsics.float_mul_unit(self, a, b)
@@ -917,6 +923,53 @@ class Path:
         if isinstance(a, (tuple, list)) and isinstance(b, (tuple, list)) and op is ast.Add:
             return a + b
         raise Unsupported(f'binop {op.__name__} on {a!r}, {b!r}')
+
+    _FLOAT_CONV_LIMIT = 2 ** 1024 - 2 ** 970      # float(k) raises OverflowError iff |k| >= this
+
+    def _binop_int_nonfinite_float(self, op, a, b):
+        """
+        symbolic int (+,-,*) concrete inf/nan float, exact CPython semantics: the int is converted
+        to a double first (OverflowError when |k| >= 2^1024 - 2^970), then IEEE arithmetic with inf/nan.
+        Finite floats are not handled here (returns MISSING).
+        """
+        f, k, f_left = (a, b, True) if isinstance(a, float) else (b, a, False)
+        if math.isfinite(f) or op not in (ast.Add, ast.Sub, ast.Mult):
+            return MISSING
+        L = self._FLOAT_CONV_LIMIT
+        if self.branch(simp(z3.Or(k >= L, k <= -L)), 'int->float overflow'):
+            raise SymRaise(mk_exc('OverflowError'))
+        if math.isnan(f):
+            return f
+        if op is ast.Add:
+            return f
+        if op is ast.Sub:
+            return f if f_left else -f
+        # Mult: 0 * inf = nan, sign otherwise
+        if self.branch(simp(k == 0), 'int*inf: int==0'):
+            return float('nan')
+        return f if self.branch(simp(k > 0), 'int*inf: int>0') else -f
+
+    def _cmp_sym_conc_float(self, op, a, b):
+        """ordering / equality between a symbolic int or Fraction and a concrete float: exact (as CPython)"""
+        f, x, f_left = (a, b, True) if isinstance(a, float) else (b, a, False)
+        if math.isnan(f):
+            return op is ast.NotEq
+        if math.isinf(f):
+            if op is ast.Eq:
+                return False
+            if op is ast.NotEq:
+                return True
+            f_greater = f > 0
+            # f_left: f OP x ; else x OP f
+            if op in (ast.Gt, ast.GtE):
+                return f_greater if f_left else not f_greater
+            return (not f_greater) if f_left else f_greater
+        fr = Fraction(f)
+        x_ = as_z3real(x) if (is_fraclike(x) or fr.denominator != 1) else as_z3int(x)
+        c_ = as_z3real(fr) if (is_fraclike(x) or fr.denominator != 1) else z3.IntVal(fr.numerator)
+        l, r = (c_, x_) if f_left else (x_, c_)
+        return simp({ast.Lt: l < r, ast.LtE: l <= r, ast.Gt: l > r, ast.GtE: l >= r,
+                     ast.Eq: l == r, ast.NotEq: l != r}[op])
 
     _PYOPS = {
         ast.Add: operator.add, ast.Sub: operator.sub, ast.Mult: operator.mul,
@@ -1225,6 +1278,9 @@ class Path:
                 return {ast.Lt: operator.lt, ast.LtE: operator.le, ast.Gt: operator.gt, ast.GtE: operator.ge}[op](a, b)
             except TypeError:
                 raise SymRaise(mk_exc('TypeError'))
+        if (isinstance(a, float) and (is_sym_int(b) or is_sym_real(b))) or \
+                (isinstance(b, float) and (is_sym_int(a) or is_sym_real(a))):
+            return self._cmp_sym_conc_float(op, a, b)
         if isinstance(a, (SymFloat, float)) or isinstance(b, (SymFloat, float)):
             if isinstance(a, SymFloat) and isinstance(b, (int, float)) and not isinstance(b, bool) and b == 0:
                 return self.ex.intrinsics.float_compare_zero(self, op.__name__, a)
@@ -1348,6 +1404,9 @@ class Path:
             return simp(z3.And([as_z3bool(r) for r in rs]))
         if isinstance(a, SymFloat) or isinstance(b, SymFloat):
             raise Unsupported('symbolic float equality')
+        if (isinstance(a, float) and (is_sym_int(b) or is_sym_real(b))) or \
+                (isinstance(b, float) and (is_sym_int(a) or is_sym_real(a))):
+            return self._cmp_sym_conc_float(ast.Eq, a, b)
         if not is_z3(a) and not is_z3(b):
             if isinstance(a, (Opaque,)) or isinstance(b, (Opaque,)):
                 if a is b:
@@ -1708,6 +1767,8 @@ class Path:
                 return r
         if not force_inline:
             c = self.ex.contract_for(info, self, args, kwargs)
+            if c is not None and not self.ex.args_fit(c, info, args, kwargs):
+                c = None      # operand kinds outside the contract's declared params: inline instead
             if c is not None:
                 return self.ex.call_contract(self, c, info, args, kwargs, is_init)
             if info.cls is None and info.name in self.ex.opaque_specs and not kwargs:
